@@ -83,6 +83,12 @@ type zrState struct {
 func (eng *Engine) initStubs2() {
 	s := eng.stubs
 	eng.initStubsBinary()
+	// regexp: compiling is not modelled; the chat package's initialiser only
+	// stores the result (rendering, which uses it, is outside every claim), so a
+	// nil *Regexp stands in and any use of it ends the path as unsupported.
+	s["regexp.MustCompile"] = func(e *Exec, _ *frame, fn *ssa.Function, _ []Value) Value {
+		return e.zero(fn.Signature.Results().At(0).Type())
+	}
 	// hash/maphash (level/biome keys its name table by it): the seed is a zero
 	// value, Bytes of a concrete byte string is its FNV-1a hash (a fixed
 	// function, as maphash is within one process); symbolic input is not modelled.
